@@ -45,7 +45,19 @@ func runC10(c *Ctx) {
 	w := prove.NewWorld(p)
 	wSetUnits(c, nbtnsPkg, [2]string{"NBTNSPacket", "Marshal"}, [2]string{"NBTNSPacket", "Unmarshal"}, [2]string{"NetBIOSName", "FirstLevelEncode"}, [2]string{"", "FirstLevelDecode"})
 
+	// the encoder core FirstLevelEncode may delegate to (c10_core.go)
+	core := c10FirstLevelCore(c, c.P.Func(nbtnsPkg, "NetBIOSName", "FirstLevelEncode"))
+	if core != nil {
+		wUnits[core] = true
+		r.Note("C10: FirstLevelEncode delegates to %s: the first-level clauses are decided on that function, and its calls in Marshal stand for FirstLevelEncode", wire.FuncLabel(core))
+	}
+
 	enc := wEncoder(c, w, nbtnsPkg, "NBTNSPacket", "Marshal")
+	if enc != nil && core != nil {
+		if fleFn := c.P.Func(nbtnsPkg, "NetBIOSName", "FirstLevelEncode"); fleFn != nil {
+			enc.enc = c10AliasCallee(enc.enc, core, fleFn)
+		}
+	}
 	dec := wDecoder(c, w, nbtnsPkg, "NBTNSPacket", "Unmarshal")
 	fle := wAnchor(c, w, nbtnsPkg, "NetBIOSName", "FirstLevelEncode")
 	fld := wAnchor(c, w, nbtnsPkg, "", "FirstLevelDecode")
@@ -100,7 +112,11 @@ func runC10(c *Ctx) {
 	r.Floor("count", 1)
 	r.Floor("guard", 1)
 	if fle != nil && fld != nil {
-		c.guard("firstlevel", "FirstLevelEncode⇄FirstLevelDecode", fle.pos, func() { c10FirstLevel(c, w, fle, fld) })
+		fleCode := fle
+		if core != nil {
+			fleCode = &wcodec{rel: fle.rel, recv: fle.recv, name: fle.name, fn: core, pos: c.P.Rel(core.Pos())}
+		}
+		c.guard("firstlevel", "FirstLevelEncode⇄FirstLevelDecode", fle.pos, func() { c10FirstLevel(c, w, fleCode, fld) })
 	}
 	r.Floor("firstlevel", 12)
 	r.Extra["layouts"] = layouts
@@ -345,7 +361,22 @@ func c10Length(c *Ctx, w *prove.World, enc, dec *wcodec) {
 				if cv, ok := c09NarrowingOf(la.Val).(ssa.Instruction); ok {
 					at = cv
 				}
-				if !la.Narrow || wProveLenLEDeep(c, w, at, la.LenOf, 255) {
+				// (it is the length of the next atom — wIsLenPrefix above — hence >= 0)
+				// … or the value that is narrowed is itself proved <= 255 at the
+				// conversion (a length computed as a difference of buffer lengths:
+				// nameLen := len(buf) - lengthAt - 1; if nameLen > 255 { return … })
+				valueBounded := false
+				for v := la.Val; v != nil; {
+					cv, isCv := v.(*ssa.Convert)
+					if !isCv {
+						break
+					}
+					if _, isCall := cv.X.(*ssa.Call); !isCall && wProveLE(w, cv, cv.X, 255, false) {
+						valueBounded = true
+					}
+					v = cv.X
+				}
+				if !la.Narrow || valueBounded || wProveLenLEDeep(c, w, at, la.LenOf, 255) {
 					r.OK("length", key, c.P.Rel(la.Pos), "E1: len(encoded) <= 255 where it is narrowed to the length byte (or at every success return of the helper that produced it)")
 				} else if helper := wGuardingHelper(c, at, la.LenOf); helper != nil {
 					wND(c, "length", key, c.P.Rel(la.Pos), "len(encoded) <= 255 is not established by the guards of Marshal itself, but "+helper.Name()+" is called first and its result decides an early exit: the bound may be established there", 1)
